@@ -4,16 +4,54 @@ import WacProofs.Lemmas.AggMeet
   C09 general theorems, part 16: foundations for NESTED instance exports.  The aggregator mutates
   the interface of an import in place and merges nested instances on fresh copies; everything
   else is frozen.  `IWF T S`: every interface of the aggregator's collection exports leaf kinds or
-  instances of interfaces outside the set `S` of mutable interface ids.  `unfold_frame`: the tree
+  instances (or `type` exports of interface type: `wrapK`) of interfaces outside the set `S` of
+  mutable interface ids.  `unfold_frame`: the tree
   of a kind that does not refer to `S` survives any change that leaves the interfaces outside `S`
   alone.  Forest lemmas that connect the loop of `merge_interface` with `meetShared`.
 -/
 namespace Wac.AggP
 open Wac Wac.Spec
 
+/-- the two kinds whose exports `merge_interface` merges recursively: an instance (`false`) and a
+`type` export of interface type (`true`) -/
+def wrapK : Bool → Nat → ItemKind
+  | false, t => .instance t
+  | true, t => .type (.interface t)
+
+/-- the tree of `wrapK b t` is `wrapT b` of the instance tree -/
+def wrapT : Bool → Tree → Tree
+  | false, t => t
+  | true, t => .type t
+
+theorem unfoldKind_wrapK (T : Types) (n : Nat) (b : Bool) (t : Nat) :
+    T.unfoldKind (n + 1) (wrapK b t) =
+      match T.interfaces[t]? with
+      | none => none
+      | some itf => (unfoldItems (T.unfoldKind n) itf.exports).map (fun F => wrapT b (.instance F)) := by
+  cases b <;> simp only [wrapK, wrapT, Types.unfoldKind] <;> rfl
+
+theorem wrapK_inj {b b' : Bool} {t t' : Nat} (h : wrapK b t = wrapK b' t') : b = b' ∧ t = t' := by
+  cases b <;> cases b' <;> simp [wrapK] at h <;> exact ⟨rfl, h⟩
+
+theorem wrapK_not_leaf (b : Bool) (t : Nat) : ¬ LeafK (wrapK b t) := by
+  cases b <;> simp [wrapK, LeafK]
+
+theorem cov_wrapT (b : Bool) (t : Tree) : cov (wrapT b t) = cov t := by
+  cases b <;> simp [wrapT, cov]
+
+theorem nd_wrapT (b : Bool) (t : Tree) : (wrapT b t).namesDistinct = t.namesDistinct := by
+  cases b <;> simp [wrapT, Tree.namesDistinct]
+
+theorem meet_wrapT (b : Bool) (F G : Forest) :
+    meet (wrapT b (.instance F)) (wrapT b (.instance G)) = (meet (.instance F) (.instance G)).map (wrapT b) := by
+  cases b
+  · show meet (Tree.instance F) (Tree.instance G) = Option.map (fun t => t) (meet (Tree.instance F) (Tree.instance G))
+    simp
+  · simp only [wrapT, meet]; rfl
+
 /-- a kind that can be unfolded without looking at a mutable interface -/
 def FrozenK (T : Types) (S : Nat → Prop) (k : ItemKind) : Prop :=
-  LeafK k ∨ ∃ t, k = .instance t ∧ ¬ S t ∧ t < T.interfaces.length
+  LeafK k ∨ ∃ b t, k = wrapK b t ∧ ¬ S t ∧ t < T.interfaces.length
 
 /-- every interface exports leaf kinds or instances of frozen interfaces -/
 def IWF (T : Types) (S : Nat → Prop) : Prop :=
@@ -33,9 +71,9 @@ theorem Frame.trans {S : Nat → Prop} {T T' T'' : Types} (h1 : Frame S T T') (h
 
 theorem FrozenK.frame {S : Nat → Prop} {T T' : Types} {k : ItemKind} (h : FrozenK T S k) (hf : Frame S T T') :
     FrozenK T' S k := by
-  rcases h with h | ⟨t, rfl, hs, hl⟩
+  rcases h with h | ⟨b, t, rfl, hs, hl⟩
   · exact .inl h
-  · exact .inr ⟨t, rfl, hs, Nat.lt_of_lt_of_le hl hf.len⟩
+  · exact .inr ⟨b, t, rfl, hs, Nat.lt_of_lt_of_le hl hf.len⟩
 
 theorem unfoldItems_congr {u u' : ItemKind → Option Tree} : ∀ (E : List (Str × ItemKind)) (F : Forest),
     (∀ x, x ∈ E → ∀ t, u x.2 = some t → u' x.2 = some t) → unfoldItems u E = some F → unfoldItems u' E = some F
@@ -50,9 +88,9 @@ theorem unfold_frame {S : Nat → Prop} {T T' : Types} (hw : IWF T S) (hf : Fram
     ∀ n k t, FrozenK T S k → T.unfoldKind n k = some t → T'.unfoldKind n k = some t
   | 0, k, t, _, h => by simp [Types.unfoldKind] at h
   | n + 1, k, t, hk, h => by
-    rcases hk with hk | ⟨t0, rfl, hs, hl⟩
+    rcases hk with hk | ⟨b, t0, rfl, hs, hl⟩
     · exact hf.ext.unfoldLeaf hk _ _ h
-    · simp only [Types.unfoldKind] at h ⊢
+    · rw [unfoldKind_wrapK] at h ⊢
       cases hi : T.interfaces[t0]? with
       | none => simp [hi] at h
       | some itf =>
@@ -72,6 +110,11 @@ theorem unfoldItems_frame {S : Nat → Prop} {T T' : Types} (hw : IWF T S) (hf :
 theorem cov_eqKind {t : Tree} (h : isEqKind t = true) : cov t = true := by
   cases t <;> simp [isEqKind] at h <;> simp [cov]
 
+theorem cov_eqK {t : Tree} (h : isEqK t = true) : cov t = true := by
+  cases t with
+  | type a => simp only [cov]; exact cov_eqKind h
+  | _ => first | exact cov_eqKind h | (simp [isEqK, isEqKind] at h)
+
 theorem covF_unfoldItems {u : ItemKind → Option Tree} : ∀ (E : List (Str × ItemKind)) (F : Forest),
     (∀ x, x ∈ E → ∀ t, u x.2 = some t → cov t = true) → unfoldItems u E = some F → covF F = true
   | [], F, _, h => by simp [unfoldItems] at h; subst h; rfl
@@ -81,22 +124,23 @@ theorem covF_unfoldItems {u : ItemKind → Option Tree} : ∀ (E : List (Str × 
     exact ⟨hc (n, k) List.mem_cons_self t h1, covF_unfoldItems E fr (fun x hx => hc x (List.mem_cons_of_mem _ hx)) h2⟩
 
 theorem cov_unfold {S : Nat → Prop} {T : Types} (hw : IWF T S) :
-    ∀ n k t, (LeafK k ∨ ∃ t0, k = .instance t0) → T.unfoldKind n k = some t → cov t = true
+    ∀ n k t, (LeafK k ∨ ∃ b t0, k = wrapK b t0) → T.unfoldKind n k = some t → cov t = true
   | 0, k, t, _, h => by simp [Types.unfoldKind] at h
   | n + 1, k, t, hk, h => by
-    rcases hk with hk | ⟨t0, rfl⟩
-    · exact cov_eqKind (eqKind_unfoldLeaf hk h)
-    · simp only [Types.unfoldKind] at h
+    rcases hk with hk | ⟨b, t0, rfl⟩
+    · exact cov_eqK (eqKind_unfoldLeaf hk h)
+    · rw [unfoldKind_wrapK] at h
       cases hi : T.interfaces[t0]? with
       | none => simp [hi] at h
       | some itf =>
         simp only [hi] at h
         obtain ⟨F, hF, rfl⟩ := Option.map_eq_some_iff.1 h
+        rw [cov_wrapT]
         simp only [cov]
         refine covF_unfoldItems itf.exports F (fun x hx t' ht' => cov_unfold hw n x.2 t' ?_ ht') hF
-        rcases hw t0 itf hi x hx with h1 | ⟨t1, h1, _⟩
+        rcases hw t0 itf hi x hx with h1 | ⟨b1, t1, h1, _⟩
         · exact .inl h1
-        · exact .inr ⟨t1, h1⟩
+        · exact .inr ⟨b1, t1, h1⟩
 
 /-! ### forests: replacing an entry, and `meetShared` step by step -/
 
